@@ -49,6 +49,8 @@ type Build struct {
 	// Hot is the result of the calibration pass ("kinds:units", two hexadecimal masks): which packet kinds and unit
 	// operations reach statements that touch shared state.  Workers bias their workloads towards those.
 	Hot string
+	// FallbackNote is set when the build with rewrites failed and the tree was built again without them.
+	FallbackNote string
 }
 
 // withHot appends the calibration result to a worker's arguments.
@@ -105,9 +107,14 @@ func buildAll(repo string, wantRace bool) (*Build, error) {
 		// the Lock/Do/Gosched rewrite did not compile (e.g. not a sync mutex): build again without the rewrite.
 		// Statement-granular scheduling stays on; a task that blocks in a real lock held by a descheduled
 		// task is caught by the per-run watchdog (exit 5) and that batch is repeated operation-granular.
-		fmt.Fprintf(os.Stderr, "[simctl] build with rewritten Lock/Do/Gosched statements failed (%v); building again without the rewrite\n", firstLine(err.Error()))
+		note := fmt.Sprintf("the scratch copy with rewritten Lock / Do / Gosched / pool / clock expressions did not compile (%s): built again without any of these rewrites - real locks (a stuck simulation is repeated operation-granular), no pool-miss fault, real clock", firstLine(err.Error()))
+		fmt.Fprintf(os.Stderr, "[simctl] %s\n", note)
 		b.Cleanup()
-		return buildWith(repo, wantRace, false)
+		b2, err2 := buildWith(repo, wantRace, false)
+		if b2 != nil {
+			b2.FallbackNote = note
+		}
+		return b2, err2
 	}
 	return b, err
 }
